@@ -1376,7 +1376,7 @@ func TestVerif_C19(t *testing.T) {
 	}
 	defer os.RemoveAll(tdir)
 	env := []string{"C19_TEMPLATES=" + tdir}
-	runs := rec.N(20, 400)
+	runs := rec.N(12, 400)
 	first := 0
 	if v, err := strconv.Atoi(os.Getenv("C19_RUNS")); err == nil && v > 0 { // development aid: "first,count" via C19_FIRST / C19_RUNS
 		runs = v
